@@ -68,7 +68,7 @@ Theorem marshalled_packet_decodes dt c p slot ty l vs :
   dec_layout_of ty p = Some l -> length vs = length l ->
   exists pkt, encode ty (f_DataIdentifier_Uint16 dt c p) vs = Some pkt /\
               client_values (data_frame pkt) = [option_map (fun q => (ty, q)) (at_precision ty p vs)] /\
-              at_precision ty p vs <> None.
+              at_precision ty p vs <> None /\ (length pkt <= 258)%nat.
 Proof.
   intros Hl Hok Hlay Hlen. unfold id_path_ok in Hok. rewrite Hl in Hok.
   set (wire := f_DataIdentifier_Uint16 dt c p) in *.
@@ -97,7 +97,7 @@ Proof.
   destruct (decode_reads_layout ty p fields l Hlay ltac:(rewrite <- layout_len_size; lia)) as [Hdec Hnn].
   assert (Hat : at_precision ty p vs = decode_fields l fields) by (unfold at_precision; rewrite Hlay; reflexivity).
   match goal with |- client_values (data_frame ?x) = _ /\ _ => change x with pkt end.
-  split; [|rewrite Hat; exact Hnn].
+  split; [|split; [rewrite Hat; exact Hnn|lia]].
   unfold client_values. rewrite Hmsg.
   assert (Hwalk : packets_of pkt = [pkt]).
   { unfold packets_of. pose proof (walk_concat [pkt] ltac:(constructor; [exact Hwfp|constructor])) as W.
@@ -135,10 +135,42 @@ Theorem configured_measurement_arrives e s slot ty l vs :
   dec_layout_of ty p = Some l -> length vs = length l ->
   exists pkt, marshal_message e ty dt vs = Some pkt /\
               client_values (data_frame pkt) = [option_map (fun q => (ty, q)) (at_precision ty p vs)] /\
-              at_precision ty p vs <> None.
+              at_precision ty p vs <> None /\ (length pkt <= 258)%nat.
 Proof.
   intros Hnd Hin. destruct s as [[[dt c] p] f] eqn:Es. intros Hl Hc Hp Hlay Hlen.
   pose proof (marshal_unique_setting e s Hnd ltac:(rewrite Es; exact Hin)) as Hm. rewrite Es in Hm. cbn [stype sid] in Hm.
   unfold marshal_message. rewrite Hm.
   exact (marshalled_packet_decodes dt c p slot ty l vs Hl (id_path_ok_of_table dt c p slot ty Hl Hc Hp) Hlay Hlen).
+Qed.
+
+(* everything together: after ANY schedule of ANY command sequence ending in go-to-measurement, a measurement of a
+   configured type handed to MarshalMessage and Transmit is written as one frame, and that frame is what the
+   client decodes to the value at the configured precision *)
+Theorem end_to_end cmds sch s st slot ty l vs :
+  Forall cmd_ok cmds -> lrun (link_init cmds) sch = Some s -> data_phase s = true -> mode_after cmds = mid_meas ->
+  NoDup (map stype (conf_after [] cmds)) -> In st (conf_after [] cmds) ->
+  let '(dt, c, p, _) := st in
+  lookup_z dt dispatch_table = Some (slot, ty) -> In c [0; 4; 8; 12] -> In p [0; 1; 2; 3] ->
+  dec_layout_of ty p = Some l -> length vs = length l ->
+  exists pkt s1, marshal_message (lemu s) ty dt vs = Some pkt /\
+                 lstep s (ChTx (data_frame pkt)) = Some s1 /\ ltx s1 = ltx s ++ [data_frame pkt] /\
+                 le2c s1 = le2c s ++ [data_frame pkt] /\
+                 client_values (data_frame pkt) = [option_map (fun q => (ty, q)) (at_precision ty p vs)] /\
+                 at_precision ty p vs <> None.
+Proof.
+  intros Hok Hr Hd Hm Hnd Hin. destruct st as [[[dt c] p] f] eqn:Est. intros Hl Hc Hp Hlay Hlen.
+  pose proof (inv_run cmds sch _ _ Hok (inv_init cmds) Hr) as Hi.
+  destruct (completed_state cmds s Hi Hd) as (Hf & Hdone & Hmode & Hconf).
+  rewrite <- Hconf in Hnd, Hin.
+  pose proof (configured_measurement_arrives (lemu s) st slot ty l vs Hnd ltac:(rewrite Est; exact Hin)) as H.
+  rewrite Est in H. destruct (H Hl Hc Hp Hlay Hlen) as (pkt & Hmm & Hcv & Hat & Hlen').
+  assert (Hv : validate (data_frame pkt) = VOk).
+  { unfold data_frame. pose proof (new_message_wf 54%N pkt ltac:(lia)) as W. cbv zeta in W. tauto. }
+  assert (Hstep : lstep s (ChTx (data_frame pkt)) =
+    Some {| ltodo := ltodo s; lwait := lwait s; ldone := ldone s; lc2e := lc2e s; le2c := le2c s ++ [data_frame pkt];
+            lemu := {| emode := emode (lemu s); econf := econf (lemu s); ealive := ealive (lemu s);
+                       eport := eport (lemu s) ++ [data_frame pkt] |};
+            lpend := lpend s; lrecv := lrecv s; ltx := ltx s ++ [data_frame pkt]; lfail := lfail s |}).
+  { unfold lstep. rewrite Hd. unfold estep, measuring. rewrite Hmode, Hm, Z.eqb_refl. cbn [negb]. rewrite Hv. reflexivity. }
+  exists pkt. eexists. split; [exact Hmm|]. split; [exact Hstep|]. cbn [ltx le2c]. repeat split; assumption.
 Qed.
